@@ -358,7 +358,9 @@ class RealWorld:
                 for what, blob in ((('bytes(key)', bytes(k)),) if light else (('bytes(key)', bytes(k)), ('str(key)', str(k)), ('bytes(key.pubkey)', bytes(pub)))):
                     r = self.pgpy.PGPKey.from_blob(blob)[0]
                     self.verify_all(r, 're-import of %s of object %d' % (what, i), fails)
-                    if self.names(r) != self.names(k) or [self.lab(s) for s in r._children.values()] != [self.lab(s) for s in k._children.values()]:
+                    nonexp_self = any((not s.exportable) and s.signer == k.fingerprint.keyid for u in k._uids for s in u._signatures)
+                    a, b = self.names(r), self.names(k)
+                    if ((sorted(a) != sorted(b)) if nonexp_self else (a != b)) or [self.lab(s) for s in r._children.values()] != [self.lab(s) for s in k._children.values()]:
                         fails.append('re-import of %s of object %d: identities / exportable signatures / subkeys differ' % (what, i))
                 # most recent self-signature wins; later-added of two same-second signatures wins
                 kid = k.fingerprint.keyid
@@ -433,6 +435,8 @@ def run_history(ctx, pgpy, d, cmds, suite, check_from=0, oracle_every=True, case
         nobj = len(rw.objs)
         if n >= check_from:
             reports = rw.reports()
+            if cmd[0] == 'deluid' and rw.obj(cmd[1]) is not None:
+                ndel_before = sum(1 for u in rw.obj(cmd[1])['k'].userids if u.name == 'uid%d' % int(cmd[2]))
         res = rw.do(cmd)
         m = d.call(*cmd)
         if n < check_from:
@@ -442,7 +446,7 @@ def run_history(ctx, pgpy, d, cmds, suite, check_from=0, oracle_every=True, case
         st = rw.state()
         if not ctx.expect_eq(suite, 'state after step %d (%s -> %s): PGPy vs model' % (n, ' '.join(cmd), res), dict(case, step=n), st, mcmp):
             return False
-        if any(f != '11' for f in flags):
+        if any(f != '111' for f in flags):
             ctx.fail(suite, 'model: invariant / sortedness does not hold after step %d' % n, dict(case, step=n, flags=flags))
             return False
         if oracle_every or n == last:
@@ -462,10 +466,15 @@ def run_history(ctx, pgpy, d, cmds, suite, check_from=0, oracle_every=True, case
         if cmd[0] == 'deluid' and res == 'ok':
             k = rw.objs[int(cmd[1])]['k']
             name = ('uid%d' % int(cmd[2])).encode()
-            cnt_model = mcmp.split(' ')[int(cmd[1])].split('|')[0].count('1.%d[' % int(cmd[2]))
-            cnt_real = sum(1 for p in K14.split_packets(bytes(k)) if p[0] in (0xcd, 0xb4) and p[2:] == name)
-            if cnt_real != cnt_model or sum(1 for u in k.userids if u.name == name.decode()) != cnt_model:
-                ctx.fail(suite, 'removed identity still present after step %d' % n, dict(case, step=n))
+            want_n = ndel_before - 1
+            with warnings.catch_warnings():
+                warnings.simplefilter('ignore')
+                got = [sum(1 for u in k.userids if u.name == name.decode()),
+                       sum(1 for p in K14.split_packets(bytes(k)) if p[0] in (0xcd, 0xb4) and p[2:] == name),
+                       sum(1 for u in pgpy.PGPKey.from_blob(bytes(k))[0].userids if u.name == name.decode()),
+                       sum(1 for u in k.pubkey.userids if u.name == name.decode())]
+            if got != [want_n] * 4:
+                ctx.fail(suite, 'removed identity still present after step %d' % n, dict(case, step=n, got=got, want=want_n))
                 return False
     return True
 
@@ -681,6 +690,10 @@ def history_keys_for_c14(ctx, n):
     saved = pp.datetime
     pp.datetime = FrozenNow
     try:
+        for name, cmds in CORPUS:
+            for m in range(len(PREAMBLE) + 1, len(cmds) + 1):        # every prefix is a history of its own
+                ctx.case('history', (name, m), sample={'name': name, 'steps': m})
+                c14_history_case(ctx, pgpy, cmds[:m])
         for _ in range(n):
             cmds = random_walk(ctx.rng, ctx.rng.randrange(4, 14))
             ctx.case('history', tuple(cmds), sample={'cmds': [' '.join(c) for c in cmds[4:12]]})
